@@ -5,35 +5,23 @@
 (* (canonical) m-mer values of the span, q the number of m-mers in a       *)
 (* window; window t (1-based) covers c[t..t+q-1].  All windows have        *)
 (* minimum v iff no value of the span is smaller than v and every window   *)
-(* holds an occurrence of v; the latter is read off the sorted occurrence  *)
-(* positions: the first lies in the first window, the last in the last     *)
-(* window, and no two neighbours are further apart than a window is wide   *)
-(* (no recursion: spans reach a million positions).  Values are compared by*)
+(* holds an occurrence of v; the latter is read off last[j], the position  *)
+(* of the most recent occurrence at or before j.  Values are compared by   *)
 (* the operator Less.  TLC checks the equivalence for every short sequence *)
 (* over three values (MCRunCover); LongTrace uses the one-pass form with   *)
 (* Less = lexicographic order on digit sequences.                          *)
 (***************************************************************************)
-EXTENDS Naturals, Sequences, SequencesExt
+EXTENDS Naturals, Sequences
 
 \* plain: the least value of every window is v
 WindowMin(c, t, q, Less(_, _)) == CHOOSE x \in {c[j] : j \in t..(t + q - 1)} : \A j \in t..(t + q - 1) : ~Less(c[j], x)
 AllWindowsPlain(c, q, v, Less(_, _)) == \A t \in 1..(Len(c) - q + 1) : WindowMin(c, t, q, Less) = v
 
-\* one pass, first form: last[j] = position of the most recent occurrence of v at or before j (recursion as deep as the
+\* one pass: last[j] = position of the most recent occurrence of v at or before j (recursion as deep as the
 \* longest stretch without an occurrence: for spans where v occurs often)
 LastOcc(c, v) == LET last[j \in 0..Len(c)] == IF j = 0 THEN 0 ELSE IF c[j] = v THEN j ELSE last[j - 1] IN last
 AllWindowsByLast(c, q, v, Less(_, _)) ==
   /\ \A j \in 1..Len(c) : ~Less(c[j], v)
   /\ LET last == LastOcc(c, v) IN \A t \in 1..(Len(c) - q + 1) : last[t + q - 1] >= t
 
-\* one pass, second form: the sorted occurrence positions (no recursion; sorting is slow, so for spans where v is rare)
-Occurrences(c, v) == SetToSortSeq({j \in 1..Len(c) : c[j] = v}, <)
-AllWindowsOnePass(c, q, v, Less(_, _)) ==
-  /\ \A j \in 1..Len(c) : ~Less(c[j], v)
-  /\ LET occ == Occurrences(c, v)
-         n == Len(occ)
-     IN /\ n >= 1
-        /\ occ[1] <= q                              \* inside the first window (positions 1..q)
-        /\ occ[n] >= Len(c) - q + 1                 \* inside the last window
-        /\ \A i \in 1..(n - 1) : occ[i + 1] - occ[i] <= q
 =============================================================================
